@@ -81,6 +81,10 @@ func (fr *Frame) exec(st *State, ins ssa.Instruction) {
 		}
 		r := u.def(fr.fn.Name()+"_"+x.Name(), SRef, "(obj "+a+")")
 		u.assume("(= (rootid " + r + ") " + a + ")")
+		if _, isStruct := et.Underlying().(*types.Struct); isStruct {
+			// guarded: another branch may allocate a different type at the same counter value
+			u.assume(implies(st.guard, fmt.Sprintf("(= (dyntype %s) %d)", r, u.P.tagOf(x.Type()))))
+		}
 		u.set(st, "alloc", "(+ "+a+" 1)")
 		u.storeTo(st, r, et, u.sorts.zero(et))
 		fr.vals[x] = Val{T: r, Sort: SRef, Typ: x.Type()}
